@@ -3,6 +3,7 @@ package main
 // Small helpers shared by the per-property rule files.
 
 import (
+	"fmt"
 	"go/ast"
 	"go/token"
 	"go/types"
@@ -274,6 +275,11 @@ func (p *Prog) DominatingFacts(f *Func, n ast.Node) FactSet {
 		for _, ft := range p.FactsOfCond(e.Cond, e.Val) {
 			s[ft.Key] = ft
 		}
+		for _, ft := range p.flagFacts(f, e.Cond, e.Val, 0) {
+			if _, dup := s[ft.Key]; !dup {
+				s[ft.Key] = ft
+			}
+		}
 	}
 	return s
 }
@@ -311,16 +317,7 @@ func (p *Prog) nodeHasCall(n ast.Node, pred func(c *ast.CallExpr) bool) bool {
 // DominatingFactList: like DominatingFacts but keeps one fact per dominating
 // edge (re-used variables such as err yield several facts with the same text).
 func (p *Prog) DominatingFactList(f *Func, n ast.Node) []Fact {
-	g := p.CFG(f)
-	loc, ok := g.Locate(n)
-	if !ok {
-		return nil
-	}
-	var out []Fact
-	for _, e := range g.DominatingEdges(loc) {
-		out = append(out, p.FactsOfCond(e.Cond, e.Val)...)
-	}
-	return out
+	return p.dominatingFactListDepth(f, n, 0)
 }
 
 func factListHas(fs []Fact, pred func(Fact) bool) bool {
@@ -640,4 +637,257 @@ func (p *Prog) enclosingIfFacts(f *Func, root ast.Node, n ast.Node) []Fact {
 		return true
 	})
 	return out
+}
+
+// flagFacts: a test of a boolean flag variable carries the facts under which
+// the flag was given that value. If every assignment to the local r in f is a
+// constant, then where r is known to be v the facts common to all "r = v"
+// assignments hold, provided they cannot have changed since: only facts over
+// single-assignment locals (no fields, no calls) are carried. This makes
+// "ok := check(); if !ok { return }" and an inlined boolean helper equivalent
+// to testing the conditions in place.
+func (p *Prog) flagFacts(f *Func, c *Cond, val bool, depth int) []Fact {
+	if c == nil || c.Op != "truth" || depth > 2 {
+		return nil
+	}
+	e := unparen(c.X)
+	for {
+		if u, ok := e.(*ast.UnaryExpr); ok && u.Op == token.NOT {
+			e, val = unparen(u.X), !val
+			continue
+		}
+		break
+	}
+	id, ok := e.(*ast.Ident)
+	if !ok {
+		return nil
+	}
+	v, ok := p.ObjOf(id).(*types.Var)
+	if !ok || v.IsField() || v.Pkg() == nil || v.Parent() == v.Pkg().Scope() {
+		return nil
+	}
+	if b, isB := v.Type().Underlying().(*types.Basic); !isB || b.Kind() != types.Bool {
+		return nil
+	}
+	root := f
+	for root.Parent != nil {
+		root = root.Parent
+	}
+	// every assignment to the flag, anywhere in the enclosing declaration
+	var sites []ast.Node
+	var siteFn []*Func
+	okAll := true
+	var scan func(fn *Func)
+	scan = func(fn *Func) {
+		walkBody(fn, func(n ast.Node) bool {
+			switch x := n.(type) {
+			case *ast.AssignStmt:
+				for i, l := range x.Lhs {
+					lid, isID := unparen(l).(*ast.Ident)
+					if !isID || p.ObjOf(lid) != types.Object(v) {
+						continue
+					}
+					if len(x.Lhs) != len(x.Rhs) {
+						okAll = false
+						continue
+					}
+					cv, isC := p.ConstVal(x.Rhs[i])
+					if !isC {
+						okAll = false
+						continue
+					}
+					if (cv == "true") == val {
+						sites = append(sites, x)
+						siteFn = append(siteFn, fn)
+					}
+				}
+			case *ast.ValueSpec:
+				for i, nm := range x.Names {
+					if p.ObjOf(nm) != types.Object(v) {
+						continue
+					}
+					if i < len(x.Values) {
+						cv, isC := p.ConstVal(x.Values[i])
+						if !isC {
+							okAll = false
+						} else if (cv == "true") == val {
+							sites = append(sites, x)
+							siteFn = append(siteFn, fn)
+						}
+					} else if !val {
+						sites = append(sites, x) // zero value: false
+						siteFn = append(siteFn, fn)
+					}
+				}
+			case *ast.UnaryExpr:
+				if x.Op == token.AND {
+					if lid, isID := unparen(x.X).(*ast.Ident); isID && p.ObjOf(lid) == types.Object(v) {
+						okAll = false
+					}
+				}
+			case *ast.IncDecStmt, *ast.RangeStmt:
+			}
+			return true
+		})
+		for _, l := range fn.Lits {
+			scan(l)
+		}
+	}
+	scan(root)
+	if !okAll || len(sites) == 0 {
+		return nil
+	}
+	// parameters and results are "assigned" by the caller
+	if v.Pos() < root.Body.Pos() {
+		return nil
+	}
+	stable := func(ft Fact) bool {
+		m := p.MentionsOf(ft.X, ft.Y)
+		if len(m.Fields) > 0 || len(m.Calls) > 0 {
+			return false
+		}
+		for o := range m.Vars {
+			if o == types.Object(v) {
+				return false
+			}
+			if _, ok := p.SingleDef(f, o); !ok {
+				// parameters never assigned count as stable
+				ds := 0
+				for fn := f; fn != nil; fn = fn.Parent {
+					ds += len(p.DefsOf(fn, o))
+				}
+				if ds != 0 {
+					return false
+				}
+			}
+		}
+		return true
+	}
+	var common map[string]Fact
+	for i, s := range sites {
+		cur := map[string]Fact{}
+		if _, isSpec := s.(*ast.ValueSpec); !isSpec || val {
+			for _, ft := range p.dominatingFactListDepth(siteFn[i], s, depth+1) {
+				if (ft.Op == "==" || ft.Op == "truth" || ft.Op == "<") && stable(ft) {
+					cur[ft.Key+fmt.Sprint(ft.Val)] = ft
+				}
+			}
+		}
+		if common == nil {
+			common = cur
+			continue
+		}
+		for k := range common {
+			if _, ok := cur[k]; !ok {
+				delete(common, k)
+			}
+		}
+	}
+	var out []Fact
+	var keys []string
+	for k := range common {
+		keys = append(keys, k)
+	}
+	sort.Strings(keys)
+	for _, k := range keys {
+		out = append(out, common[k])
+	}
+	return out
+}
+
+func (p *Prog) dominatingFactListDepth(f *Func, n ast.Node, depth int) []Fact {
+	g := p.CFG(f)
+	loc, ok := g.Locate(n)
+	if !ok {
+		return nil
+	}
+	var out []Fact
+	for _, e := range g.DominatingEdges(loc) {
+		out = append(out, p.FactsOfCond(e.Cond, e.Val)...)
+		out = append(out, p.flagFacts(f, e.Cond, e.Val, depth)...)
+	}
+	return out
+}
+
+// flagIsExactly: the boolean local tested by fact ft is true exactly when the
+// facts flagFacts reports for it hold: every site that sets it to the other
+// value is dominated by the negation of one of those facts. The zero value of
+// a result temporary introduced by the helper inliner never reaches a test
+// (every return of the inlined helper assigns it), so its declaration is not
+// counted as a site.
+func (p *Prog) flagIsExactly(f *Func, ft Fact) bool {
+	if ft.Op != "truth" {
+		return false
+	}
+	id, ok := unparen(ft.X).(*ast.Ident)
+	if !ok {
+		return false
+	}
+	v, ok := p.ObjOf(id).(*types.Var)
+	if !ok {
+		return false
+	}
+	implied := p.flagFacts(f, &Cond{Op: "truth", X: id}, ft.Val, 0)
+	if len(implied) == 0 {
+		return false
+	}
+	inlinerTemp := strings.HasPrefix(v.Name(), "inl") && strings.Contains(v.Name(), "_r")
+	root := f
+	for root.Parent != nil {
+		root = root.Parent
+	}
+	okAll := true
+	var scan func(fn *Func)
+	scan = func(fn *Func) {
+		walkBody(fn, func(n ast.Node) bool {
+			var rhs ast.Expr
+			switch x := n.(type) {
+			case *ast.AssignStmt:
+				for i, l := range x.Lhs {
+					if lid, isID := unparen(l).(*ast.Ident); isID && p.ObjOf(lid) == types.Object(v) && len(x.Lhs) == len(x.Rhs) {
+						rhs = x.Rhs[i]
+					}
+				}
+			case *ast.ValueSpec:
+				for i, nm := range x.Names {
+					if p.ObjOf(nm) == types.Object(v) {
+						if i < len(x.Values) {
+							rhs = x.Values[i]
+						} else if !inlinerTemp && ft.Val {
+							okAll = false // the zero value (false) may reach the test
+						}
+					}
+				}
+			}
+			if rhs == nil {
+				return true
+			}
+			cv, isC := p.ConstVal(rhs)
+			if !isC {
+				okAll = false
+				return true
+			}
+			if (cv == "true") == ft.Val {
+				return true
+			}
+			// a site of the other value: must contradict one implied fact
+			contradicts := false
+			for _, d := range p.dominatingFactListDepth(fn, n, 1) {
+				for _, im := range implied {
+					if d.Key == im.Key && d.Val != im.Val {
+						contradicts = true
+					}
+				}
+			}
+			if !contradicts {
+				okAll = false
+			}
+			return true
+		})
+		for _, l := range fn.Lits {
+			scan(l)
+		}
+	}
+	scan(root)
+	return okAll
 }
